@@ -156,6 +156,11 @@ class Run:
 
     # ------------------------------------------------------------ memory
     def load(self, p, line):
+        if isinstance(p, tuple) and p[0] == 'PF':
+            rec = self.recs[p[1]]
+            if rec.get('__freed'):
+                raise OOB(('R', p[1]), 0, 0, line)
+            return rec[p[2]]
         if not (isinstance(p, tuple) and p[0] == 'P'):
             raise Unsupported('dereference of a non-pointer')
         _, b, i = p
@@ -167,6 +172,12 @@ class Run:
         return buf[i]
 
     def store(self, p, v, line):
+        if isinstance(p, tuple) and p[0] == 'PF':
+            rec = self.recs[p[1]]
+            if rec.get('__freed'):
+                raise OOB(('R', p[1]), 0, 0, line)
+            rec[p[2]] = v
+            return
         if not (isinstance(p, tuple) and p[0] == 'P'):
             raise Unsupported('store through a non-pointer')
         _, b, i = p
@@ -195,6 +206,8 @@ class Run:
             if isinstance(base, tuple) and base[0] == 'R' and not e.get('f'):
                 return ('recobj', base[1])
             if isinstance(base, tuple) and base[0] == 'R':
+                if self.recs.get(base[1], {}).get('__freed'):
+                    raise OOB(('R', base[1]), 0, 0, e.get('l'))          # store into a deleted node
                 return ('rec', base[1], e['f'], T(self.f, e.get('t')))
             raise Unsupported('lvalue `%s`' % pe(e))
         if k == 'call' and not (e.get('op') == '[]' and self.obj_of(e) is not None):
@@ -552,6 +565,8 @@ class Run:
                 return base             # anonymous union / struct layer of the record
             if isinstance(base, tuple) and base[0] == 'R':
                 rec = self.recs[base[1]]
+                if rec.get('__freed'):
+                    raise OOB(('R', base[1]), 0, 0, e.get('l'))          # field of a deleted node
                 if e.get('f') not in rec:
                     raise Unsupported('field %s of record %s' % (e.get('f'), base[1]))
                 return rec[e['f']]
@@ -581,6 +596,8 @@ class Run:
                     return l[1]
                 if l[0] == 'recobj':
                     return ('R', l[1])
+                if l[0] == 'rec':
+                    return ('PF', l[1], l[2])           # address of a field of a modelled record (`&p->next`)
                 if l[0] == 'var' and isinstance(self.vars.get(l[1]), tuple) and self.vars[l[1]][:1] == ('R',):
                     return self.vars[l[1]]          # address of a reference parameter bound to a modelled record
                 if l[0] == 'var':
@@ -678,6 +695,16 @@ class Run:
         if k == 'sizeof':
             if 'cv' in e:
                 return e['cv']
+        if k == 'delete':
+            pv = self.val(e['e'])
+            if pv == 0:
+                return 0
+            if isinstance(pv, tuple) and pv[0] == 'R' and pv[1] in self.recs:
+                if self.recs[pv[1]].get('__freed'):
+                    raise OOB(('R', pv[1]), 0, 0, e.get('l'))          # double delete
+                self.recs[pv[1]]['__freed'] = True
+                return 0
+            raise Unsupported('`%s`' % pe(e))
         raise Unsupported('expression `%s` (%s)' % (pe(e), k))
 
     def arith(self, op, a, b, e):
